@@ -5,8 +5,6 @@ import (
 	"context"
 	"encoding/hex"
 	"fmt"
-	"os"
-	"os/exec"
 	"sort"
 	"strings"
 	"time"
@@ -31,10 +29,11 @@ type roundCfg struct {
 	depth            int
 	c05              bool // evaluate the dead-node / prune oracles instead of the save oracles
 	skipEmptyRecords bool // the caller records dead nodes only in rounds where something died
+	syncOps          bool // a round may end with the authoritative state of the round being merged in (MergeDB)
 }
 
 type rEvent struct {
-	K    byte // I, D, m merge, x discard, S save round
+	K    byte // I, D, m merge, x discard, S save round, y/z the authoritative round state (previous round + one insert/delete) is merged in
 	P, V string
 }
 
@@ -50,6 +49,10 @@ func (e rEvent) String() string {
 		return "discard txn"
 	case 'S':
 		return "record dead nodes + save round"
+	case 'y':
+		return fmt.Sprintf("MergeDB(full state of: previous round + Insert(%q,%q))", e.P, e.V)
+	case 'z':
+		return fmt.Sprintf("MergeDB(full state of: previous round + Delete(%q))", e.P)
 	}
 	return "?"
 }
@@ -62,7 +65,13 @@ func (c roundCfg) events() []rEvent {
 		}
 		evs = append(evs, rEvent{K: 'D', P: p})
 	}
-	return append(evs, rEvent{K: 'm'}, rEvent{K: 'x'}, rEvent{K: 'S'})
+	evs = append(evs, rEvent{K: 'm'}, rEvent{K: 'x'}, rEvent{K: 'S'})
+	if c.syncOps {
+		for _, p := range c.paths {
+			evs = append(evs, rEvent{K: 'y', P: p, V: c.vals[len(c.vals)-1] + "!"}, rEvent{K: 'z', P: p})
+		}
+	}
+	return evs
 }
 
 type savedRound struct {
@@ -141,6 +150,32 @@ func txnStep(B *util.MerklePatriciaTrie, T **util.MerklePatriciaTrie, e rEvent) 
 		return err
 	case 'x':
 		*T = nil
+	case 'y', 'z':
+		// the round's authoritative state, computed elsewhere from the previous round's state, arrives as a
+		// node store holding that whole state; the block trie (with whatever it computed locally) adopts it
+		_, _, _, start := B.GetChanges()
+		pn := B.GetNodeDB().(*util.LevelNodeDB).GetPrev()
+		A := util.NewMerklePatriciaTrie(util.NewLevelNodeDB(util.NewMemoryNodeDB(), pn, false), B.GetVersion(), start, statecache.NewEmpty())
+		var err error
+		if e.K == 'y' {
+			_, err = A.Insert(util.Path(e.P), val(e.V))
+		} else if _, err = A.Delete(util.Path(e.P)); err == util.ErrValueNotPresent {
+			err = nil
+		}
+		if err != nil {
+			return err
+		}
+		donor := util.NewMemoryNodeDB()
+		err = A.Iterate(context.Background(), func(ctx context.Context, path util.Path, key util.Key, node util.Node) error {
+			if node == nil {
+				return fmt.Errorf("authoritative state lacks node %x", []byte(key))
+			}
+			return donor.PutNode(key, node.CloneNode())
+		}, util.NodeTypeLeafNode|util.NodeTypeFullNode|util.NodeTypeExtensionNode)
+		if err != nil {
+			return err
+		}
+		return B.MergeDB(donor, A.GetRoot(), nil)
 	}
 	return nil
 }
@@ -190,6 +225,22 @@ func (w *rWorld) apply(e rEvent, judge bool) (fail string) {
 				return fmt.Sprintf("merge of the only open transaction was rejected: %v", err)
 			}
 			w.model = w.tmodel
+		case 'y', 'z':
+			if err != nil {
+				return fmt.Sprintf("%v returned %v", e, err)
+			}
+			w.model = map[string]string{}
+			if n := len(w.saved); n > 0 {
+				w.model = copyMap(w.saved[n-1].model)
+			}
+			if e.K == 'y' {
+				w.model[e.P] = e.V
+			} else {
+				delete(w.model, e.P)
+			}
+			if f := viewOf(w.B, w.model, w.c.paths); f != "" {
+				return "after MergeDB of the authoritative state, the block trie: " + f
+			}
 		}
 		return ""
 	}
@@ -518,9 +569,11 @@ func runRounds(rep *rt.Report, c roundCfg, deadline time.Time, agg *crashStats) 
 		Name: c.name, NOps: len(evs), MaxDepth: c.depth, Workers: rt.Workers(), Deadline: deadline,
 		OpName: func(i int) string { return evs[i].String() },
 		Enabled: func(h []uint8, op int) bool {
-			open, tops, txns, rounds := false, 0, 0, 0
+			open, tops, txns, rounds, synced := false, 0, 0, 0, false
 			for _, x := range h {
 				switch evs[x].K {
+				case 'y', 'z':
+					synced = true
 				case 'I', 'D':
 					if !open {
 						open, tops = true, 0
@@ -532,7 +585,11 @@ func runRounds(rep *rt.Report, c roundCfg, deadline time.Time, agg *crashStats) 
 				case 'S':
 					rounds++
 					txns = 0
+					synced = false
 				}
+			}
+			if synced {
+				return evs[op].K == 'S' // the adopted state is what the round saves
 			}
 			switch evs[op].K {
 			case 'I', 'D':
@@ -602,23 +659,39 @@ func C04(tier rt.Tier) int {
 			{name: "nested-2rounds", paths: nestedRound[:4], vals: []string{"x"}, rounds: 2, txnOps: 2, maxTxns: 1, depth: 7},
 			// txn2 of a round undoes and redoes what txn1 of the same round wrote, plus one more change
 			{name: "restore-within-round", paths: pfPaths[:2], vals: []string{"x", "y"}, rounds: 2, txnOps: 3, maxTxns: 2, depth: 9},
+			// a round's local computation is superseded by the authoritative state of the round (MergeDB)
+			{name: "sync-merge-2rounds", paths: pfPaths[:3], vals: []string{"x"}, rounds: 2, txnOps: 2, maxTxns: 1, depth: 8, syncOps: true},
 		}
 	} else {
 		per = 8 * time.Minute
 		runs = []roundCfg{
 			{name: "prefixfree-3rounds", paths: pfPaths[:5], vals: []string{"x", "y"}, rounds: 3, txnOps: 2, maxTxns: 2, depth: 12},
 			{name: "nested-3rounds", paths: nestedRound, vals: []string{"x"}, rounds: 3, txnOps: 2, maxTxns: 2, depth: 12},
+			{name: "sync-merge-3rounds", paths: nestedRound[:4], vals: []string{"x"}, rounds: 3, txnOps: 2, maxTxns: 1, depth: 12, syncOps: true},
+		}
+	}
+	if rt.SubRun {
+		// BatchSize = 2: a save of more than two nodes crosses the batching threshold of the store layer
+		runs = []roundCfg{
+			{name: rt.VariantPrefix + "prefixfree-2rounds", paths: pfPaths[:4], vals: []string{"x"}, rounds: 2, txnOps: 2, maxTxns: 2, depth: 7},
+			{name: rt.VariantPrefix + "nested-2rounds", paths: nestedRound[:4], vals: []string{"x"}, rounds: 2, txnOps: 2, maxTxns: 1, depth: 7},
+			{name: rt.VariantPrefix + "sync-merge-2rounds", paths: pfPaths[:3], vals: []string{"x"}, rounds: 2, txnOps: 2, maxTxns: 1, depth: 7, syncOps: true},
+		}
+		if tier == rt.Thorough {
+			runs[0].rounds, runs[0].depth = 3, 11
+			runs[1].rounds, runs[1].depth, runs[1].maxTxns = 3, 11, 2
 		}
 	}
 	for _, c := range runs {
 		runRounds(rep, c, time.Now().Add(per), agg)
 	}
+	rep.RunVariant()
 	rep.Set("crash_points_explored", agg.crashPoints)
 	rep.Set("injected_write_failures", agg.failPoints)
 	rep.Set("store_reopenings", agg.reopenings)
 	rep.Set("rule", "BFS over all multi-round histories: per round sequential child transactions (LevelNodeDB over the block trie) merged or discarded, then RecordDeadNodes + SaveChanges(includeDeletes=false) into PNodeDB on the write-log stand-in. At every save: the store is reopened from its log alone and every round ever saved must read exactly its model content with no missing node and every key == hash of its node; for EVERY prefix of the save's write stream the recovered store must keep all earlier roots complete, and re-executing + re-saving the interrupted round must give the same root and a complete state; each write of the save is also made to fail (error must surface, earlier roots intact)")
 	rep.Assumption("crash model: a crash loses a suffix of the unsynced write log, never reorders it, write batches are atomic (RocksDB WAL semantics for sync=false writes)")
-	return rep.Finish()
+	return rep.End()
 }
 
 func C05(tier rt.Tier) int {
@@ -636,19 +709,23 @@ func C05(tier rt.Tier) int {
 			{name: "restore-within-round", paths: pfPaths[:2], vals: []string{"x", "y"}, rounds: 2, txnOps: 3, maxTxns: 2, depth: 9, c05: true},
 			// rounds in which nothing died leave no dead-node record (gaps in the record versions)
 			{name: "idle-rounds-4", paths: pfPaths[:2], vals: []string{"x", "y"}, rounds: 4, txnOps: 1, maxTxns: 1, depth: 11, c05: true, skipEmptyRecords: true},
+			// a round's local computation is superseded by the authoritative state of the round (MergeDB)
+			{name: "sync-merge-2rounds", paths: pfPaths[:3], vals: []string{"x"}, rounds: 2, txnOps: 2, maxTxns: 1, depth: 8, c05: true, syncOps: true},
 		}
 	} else {
 		runs = []roundCfg{
 			{name: "prefixfree-4rounds", paths: pfPaths[:4], vals: []string{"x"}, rounds: 4, txnOps: 1, maxTxns: 3, depth: 14, c05: true},
 			{name: "nested-3rounds", paths: nestedRound, vals: []string{"x", "y"}, rounds: 3, txnOps: 2, maxTxns: 3, depth: 12, c05: true},
+			{name: "sync-merge-3rounds", paths: nestedRound[:4], vals: []string{"x"}, rounds: 3, txnOps: 2, maxTxns: 1, depth: 12, c05: true, syncOps: true},
 		}
 	}
 	if rt.SubRun {
-		// variant build with maxPruneNodes = 2: the prune's delete stream consists of many small
-		// batches, so crash points BETWEEN node-delete batches exist (with 1000 there is one batch)
+		// variant build with maxPruneNodes = 2 and BatchSize = 2: the prune's delete stream consists of many
+		// small batches, so crash points BETWEEN node-delete batches exist (with 1000 there is one batch)
 		runs = []roundCfg{
-			{name: "prune-batch-2/prefixfree-3rounds", paths: pfPaths[:3], vals: []string{"x"}, rounds: 3, txnOps: 2, maxTxns: 1, depth: 9, c05: true},
-			{name: "prune-batch-2/nested-2rounds", paths: nestedRound[:4], vals: []string{"x"}, rounds: 2, txnOps: 2, maxTxns: 2, depth: 8, c05: true},
+			{name: rt.VariantPrefix + "prefixfree-3rounds", paths: pfPaths[:3], vals: []string{"x"}, rounds: 3, txnOps: 2, maxTxns: 1, depth: 9, c05: true},
+			{name: rt.VariantPrefix + "nested-2rounds", paths: nestedRound[:4], vals: []string{"x"}, rounds: 2, txnOps: 2, maxTxns: 2, depth: 8, c05: true},
+			{name: rt.VariantPrefix + "sync-merge-2rounds", paths: pfPaths[:3], vals: []string{"x"}, rounds: 2, txnOps: 2, maxTxns: 1, depth: 8, c05: true, syncOps: true},
 		}
 		if tier == rt.Thorough {
 			runs[0].paths, runs[0].maxTxns, runs[0].rounds, runs[0].depth = pfPaths[:4], 2, 4, 14
@@ -658,26 +735,10 @@ func C05(tier rt.Tier) int {
 	for _, c := range runs {
 		runRounds(rep, c, time.Now().Add(per), agg)
 	}
-	if rt.SubRun {
-		rep.Set("prunes_executed", agg.prunes)
-		rep.Set("prune_crash_points_explored", agg.pruneCrashPoints)
-		return rep.Dump()
-	}
-	if variant := os.Args[0] + ".prune2"; rt.Replay == nil {
-		if _, err := os.Stat(variant); err == nil {
-			out, err := exec.Command(variant, "C05", "--sub", string(tier)).Output()
-			if err != nil {
-				rt.HarnessError("variant build prune2: %v", err)
-			}
-			rep.Merge("maxPruneNodes=2: ", out)
-			rep.Assumption("sub-runs prefixed 'prune-batch-2' come from a second build in which the local constant maxPruneNodes (1000) of PruneBelowVersion is 2 (changed through the build overlay, nothing else differs)")
-		} else {
-			rep.Set("small_prune_batch_variant", "not built")
-		}
-	}
+	rep.RunVariant()
 	rep.Set("prunes_executed", agg.prunes)
 	rep.Set("prune_crash_points_explored", agg.pruneCrashPoints)
 	rep.Set("rule", "BFS over the C04 round histories (three 1-op transactions per round make insert/delete/re-insert of identical content inside one round and across rounds part of the alphabet). At every save: no node recorded dead in any round r is reachable (independent walk over the decoded device content) from the root of any round >= r; then for EVERY prune version 1..R+1 PruneBelowVersion runs on a copy of the device: every root saved at a version >= v must read its full content, every removed key must have been recorded dead below v; for EVERY prefix of the prune's write stream the store is reopened, checked, the prune re-run and checked again")
 	rep.Assumption("crash model: prefix of the unsynced write log, atomic batches")
-	return rep.Finish()
+	return rep.End()
 }
